@@ -4,7 +4,9 @@ package main
 //   case <id> cow(mem,mem): base = child 0, overlay = child 1
 import (
 	"fmt"
+	"path/filepath"
 	"sort"
+	"strconv"
 	"strings"
 
 	"github.com/spf13/afero"
@@ -27,6 +29,15 @@ func dumpMap(fs afero.Fs) map[string]viewEntry {
 		}
 	}
 	return m
+}
+
+// MemMapFs's key for a name (normalizePath)
+func normPath(p string) string {
+	p = filepath.Clean(p)
+	if p == "." || p == ".." {
+		return "/"
+	}
+	return p
 }
 
 // the specification of C06: overlay entry if the overlay has one, else the base's
@@ -148,6 +159,16 @@ func cowCase(c *Ctx, id, stack string, items []string, prop string) {
 			failed = true
 			c.Oracle("FAIL %s failed-call-changed-view:%s step %d (%s -> %s): before=%s after=%s", id, opName(it), i, it, out, viewString(beforeView), viewString(spec))
 			continue
+		}
+		if f[2] == "OpenFile" && out == "err:NotExist" {
+			// "shows, for each path, the overlay's entry or else the base's": a path the view holds is
+			// not reported missing by an open that does not ask for exclusivity
+			fl, _ := strconv.Atoi(f[4])
+			if e, ok := beforeView[normPath(string(unhx(f[3])))]; ok && !e.dir && fl&0x80 == 0 {
+				failed = true
+				c.Oracle("FAIL %s view:open-denies-visible-file step %d (%s -> %s): the view holds this path as a regular file", id, i, it, out)
+				continue
+			}
 		}
 		paths := make([]string, 0, len(spec))
 		for p := range spec {
@@ -364,6 +385,7 @@ func runCowProp(c *Ctx, prop string) {
 			k++
 		}
 		c.Extra["flag_sweep"] = fmt.Sprintf("%d of 4096 combinations of 12 O_* bits", k)
+		runOSBase(c, "C05")
 	}
 	for i := 0; i < n; i++ {
 		items := genCow(c.Rng.Fork(), prop == "C05" || i%5 == 4)
